@@ -8,12 +8,13 @@
   `C03_prox_contract_iff_argmin`); `…SpecStep` is the documented iteration, equal to `step()` by C11.
 
   NOT proved here (exercised numerically by the check only): convergence of the ADMM family and of PDHG
-  to the minimiser from arbitrary starts; the Lyapunov descent for `N > 1` constraints or `alpha ≠ 1`
-  (`C03_admm_lyapunov_stmt` keeps the statement visible).
+  to the minimiser from arbitrary starts; Lyapunov descent under relaxation `alpha ≠ 1` (Boyd's §3.3
+  argument, which is what is formalised, is for `alpha = 1`).
 -/
 import Scico.Proofs.StepsFixed
 import Scico.Proofs.StepsPGM
 import Scico.Proofs.StepsLyap
+import Scico.Proofs.StepsLyapN
 
 set_option linter.unusedSectionVars false
 
@@ -173,10 +174,44 @@ theorem C03_fista_t {σ : Type} (p : PGMParams σ ℝ X) (hk : p.pol.kind ≠ .r
     (apgmSpecStep p s).t = fistaTImpl s.t :=
   ⟨apgm_t_lower p hk k s hs, fistaT_identity s.t, apgm_t_step p s hk⟩
 
-/-- ADMM Lyapunov descent (Boyd et al. §3.3), single constraint, `alpha = 1`: from a dual-feasible
-    state one documented iteration gives
-    `V⁺ + ρ(‖Cx⁺ − z⁺‖² + ‖z⁺ − z‖²) ≤ V`, and the new state is dual feasible again -/
-theorem C03_admm_lyapunov_partial (c : Con X Z) (f : Option (X → ℝ)) (solveX : List Z → List Z → X → X)
+/-- ADMM Lyapunov descent (Boyd et al. §3.3), `N` constraints, `alpha = 1`.  The constraints and the
+    per-constraint parts of the state / KKT point are bundled in rows `(c, z, u, u*)`.  From a
+    dual-feasible state (`ρ_i u_i ∈ ∂g_i(z_i)`, true after every step) one documented iteration gives
+    `V⁺ + Σ ρ_i(‖C_i x⁺ − z_i⁺‖² + ‖z_i⁺ − z_i‖²) ≤ V` for `V = Σ ρ_i(‖u_i − u_i*‖² + ‖z_i − C_i x*‖²)`,
+    and the new state is dual feasible again. -/
+theorem C03_admm_lyapunov (rows : List (Row X Z)) (f : Option (X → ℝ)) (solveX : List Z → List Z → X → X)
+    (F : Fn X)
+    (hsolve : ∀ z u x0, F.Subgrad (solveX z u x0) (xGrad (rows.map (·.c)) z u (solveX z u x0)))
+    (xs : X) (hok : ∀ r ∈ rows, RowOK xs r)
+    (hkx : F.Subgrad xs (xGrad (rows.map (·.c)) (rows.map (fun r => r.c.C xs)) (rows.map (·.us)) xs))
+    (x : X) (zOld : List Z) :
+    let xn := solveX (rows.map (·.z)) (rows.map (·.u)) x
+    admmSpecStep (admmOfCons f 1 solveX (rows.map (·.c)))
+        { x := x, z := rows.map (·.z), zOld := zOld, u := rows.map (·.u) }
+      = { x := xn, z := rows.map (fun r => r.zn xn), zOld := rows.map (·.z), u := rows.map (fun r => r.un xn) } ∧
+    (∀ r ∈ rows, r.c.G.Subgrad (r.zn xn) (r.c.rho • r.un xn)) ∧
+    rowsV xs rows (fun r => r.zn xn) (fun r => r.un xn)
+        + (rows.map (fun r => r.c.rho * (‖r.c.C xn - r.zn xn‖ ^ 2 + ‖r.zn xn - r.z‖ ^ 2))).sum
+      ≤ rowsV xs rows (·.z) (·.u) :=
+  admm_lyapunov_rows rows f solveX F hsolve xs hok hkx x zOld
+
+/-- … hence `V_k ≤ V_0` for every `k` along the trajectory of the documented iteration -/
+theorem C03_admm_lyapunov_traj (cons : List (Con X Z)) (uss : List Z) (f : Option (X → ℝ))
+    (solveX : List Z → List Z → X → X) (F : Fn X)
+    (hsolve : ∀ z u x0, F.Subgrad (solveX z u x0) (xGrad cons z u (solveX z u x0)))
+    (xs : X) (hkx : F.Subgrad xs (xGrad cons (cons.map (fun c => c.C xs)) uss xs)) (k : Nat)
+    (rows : List (Row X Z)) (x : X) (zOld : List Z)
+    (hc : rows.map (·.c) = cons) (hu : rows.map (·.us) = uss) (hok : ∀ r ∈ rows, RowOK xs r) :
+    ∃ (rows' : List (Row X Z)) (x' : X) (zOld' : List Z),
+      iter (admmSpecStep (admmOfCons f 1 solveX cons)) k
+          { x := x, z := rows.map (·.z), zOld := zOld, u := rows.map (·.u) }
+        = { x := x', z := rows'.map (·.z), zOld := zOld', u := rows'.map (·.u) } ∧
+      rows'.map (·.c) = cons ∧ rows'.map (·.us) = uss ∧ (∀ r ∈ rows', RowOK xs r) ∧
+      rowsV xs rows' (·.z) (·.u) ≤ rowsV xs rows (·.z) (·.u) :=
+  admm_lyapunov_rows_traj cons uss f solveX F hsolve xs hkx k rows x zOld hc hu hok
+
+/-- the single-constraint form with explicit vectors -/
+theorem C03_admm_lyapunov_single (c : Con X Z) (f : Option (X → ℝ)) (solveX : List Z → List Z → X → X)
     (F : Fn X) (hsolve : ∀ z u x0, F.Subgrad (solveX z u x0) (xGrad [c] z u (solveX z u x0)))
     (hC : ∀ x y, c.C (x - y) = c.C x - c.C y) (hadj : ∀ w x, inner ℝ (c.Cadj w) x = inner ℝ w (c.C x))
     (hrho : 0 < c.rho) (hprox : IsProx c.G c.prox)
@@ -189,23 +224,6 @@ theorem C03_admm_lyapunov_partial (c : Con X Z) (f : Option (X → ℝ)) (solveX
       c.rho * (‖un - us‖ ^ 2 + ‖zn - c.C xs‖ ^ 2) + c.rho * (‖c.C xn - zn‖ ^ 2 + ‖zn - z‖ ^ 2)
         ≤ c.rho * (‖u - us‖ ^ 2 + ‖z - c.C xs‖ ^ 2) :=
   admm_lyapunov_single c f solveX F hsolve hC hadj hrho hprox xs us hkx hkz x z zOld u hpre
-
-/-- … hence `V_k ≤ V_0` for every `k` along the trajectory -/
-theorem C03_admm_lyapunov_partial_traj (c : Con X Z) (f : Option (X → ℝ)) (solveX : List Z → List Z → X → X)
-    (F : Fn X) (hsolve : ∀ z u x0, F.Subgrad (solveX z u x0) (xGrad [c] z u (solveX z u x0)))
-    (hC : ∀ x y, c.C (x - y) = c.C x - c.C y) (hadj : ∀ w x, inner ℝ (c.Cadj w) x = inner ℝ w (c.C x))
-    (hrho : 0 < c.rho) (hprox : IsProx c.G c.prox)
-    (xs : X) (us : Z) (hkx : F.Subgrad xs (xGrad [c] [c.C xs] [us] xs)) (hkz : c.G.Subgrad (c.C xs) (c.rho • us))
-    (k : Nat) (x : X) (z zOld u : Z) (hpre : c.G.Subgrad z (c.rho • u)) :
-    ∃ xk zk zo uk,
-      iter (admmSpecStep (admmOfCons f 1 solveX [c])) k { x := x, z := [z], zOld := [zOld], u := [u] }
-        = { x := xk, z := [zk], zOld := [zo], u := [uk] } ∧
-      c.G.Subgrad zk (c.rho • uk) ∧
-      c.rho * (‖uk - us‖ ^ 2 + ‖zk - c.C xs‖ ^ 2) ≤ c.rho * (‖u - us‖ ^ 2 + ‖z - c.C xs‖ ^ 2) :=
-  admm_lyapunov_traj c f solveX F hsolve hC hadj hrho hprox xs us hkx hkz k x z zOld u hpre
-
-/-- full statement (N constraints) — NOT claimed, kept visible -/
-def C03_admm_lyapunov_stmt : Prop := admm_lyapunov_stmt
 
 /-! ### non-vacuity: the hypotheses are satisfiable on non-trivial instances -/
 
@@ -241,6 +259,20 @@ example (h : ℝ) (hh : 0 < h) (b : X) :
     hh hh.le (fun x => by rw [inner_smul_left, real_inner_self_eq_norm_sq]; simp)
     (fun x => by rw [inner_smul_left, real_inner_self_eq_norm_sq]; simp)
   exact ⟨this.1, this.2.2⟩
+
+/-- the hypotheses of `C03_admm_lyapunov` are satisfiable: two rows with `C = id`, `g_i = 0`,
+    `f = ½‖· − y0‖²`, exact x-update `x = (y0 + Σρ_i(z_i − u_i))/(1 + Σρ_i)`, KKT point `(y0, u* = 0)` -/
+example (y0 z1 z2 : X) :
+    let c1 : Con X X := { rho := 1, C := id, Cadj := id, G := Fn.ofReal (fun _ => 0), g := fun _ => 0, prox := fun _ v => v }
+    let c2 : Con X X := { rho := 2, C := id, Cadj := id, G := Fn.ofReal (fun _ => 0), g := fun _ => 0, prox := fun _ v => v }
+    let rows : List (Row X X) := [{ c := c1, z := z1, u := 0, us := 0 }, { c := c2, z := z2, u := 0, us := 0 }]
+    ∀ r ∈ rows, RowOK y0 r := by
+  intro c1 c2 rows r hr
+  have hz : ∀ v : X, (Fn.ofReal (fun _ : X => (0 : ℝ))).Subgrad v 0 := fun v => ⟨trivial, fun y _ => by simp [Fn.ofReal]⟩
+  simp only [rows, List.mem_cons, List.not_mem_nil, or_false] at hr
+  rcases hr with rfl | rfl
+  · exact ⟨fun _ _ => rfl, fun _ _ => rfl, by norm_num [c1], isProx_zero, by simpa [c1] using hz _, by simpa [c1] using hz _⟩
+  · exact ⟨fun _ _ => rfl, fun _ _ => rfl, by norm_num [c2], isProx_zero, by simpa [c2] using hz _, by simpa [c2] using hz _⟩
 
 -- FISTA from t₀ = 1: t₁ = (1+√5)/2 ≥ 3/2
 example : (3 : ℝ) / 2 ≤ fistaTImpl 1 := by
